@@ -605,3 +605,20 @@ Proof.
   inversion H as [|? ? H0 _]; subst. rewrite H0, Z.eqb_refl. cbn [andb flat].
   rewrite map_map. cbn [flat]. rewrite map_id. reflexivity.
 Qed.
+
+Lemma linear_cmp_valid_shape d tl cfg e s ss : shape_eqb (shape_of e) (shape_of s) = true ->
+  linear_cmp (Some d) tl cfg ((e, s) :: ss) = linear_cmp None tl cfg ((e, s) :: ss).
+Proof.
+  intro H. unfold linear_cmp. rewrite (validate_shape_right d s (shape_of e) H). reflexivity.
+Qed.
+
+Lemma first_shape_error_none d ss :
+  Forall (fun es => shape_eqb (shape_of (fst es)) (shape_of (snd es)) = true) ss -> first_shape_error d ss = None.
+Proof.
+  induction 1 as [|[e s] ss H _ IH]; [reflexivity|]. simpl in *. rewrite (validate_shape_right d s (shape_of e) H). exact IH.
+Qed.
+
+Lemma entry_cmp_valid_shape d tl pc ss :
+  Forall (fun es => shape_eqb (shape_of (fst es)) (shape_of (snd es)) = true) ss ->
+  matrix_entry_cmp (Some d) tl pc ss = entry_credit pc (entry_summary tl ss).
+Proof. intro H. unfold matrix_entry_cmp. rewrite (first_shape_error_none d ss H). reflexivity. Qed.
